@@ -383,12 +383,14 @@ async fn run_spec(spec: &Spec) -> Out {
 					continue;
 				}
 				let Some(h) = reg.get(&m.tag) else { continue };
-				let ret = match how % 3 {
-					0 => Ret::None,
-					1 => Ret::NotifErr("closing".into()),
-					_ => Ret::Notif(json!("bye")),
+				// how = 3: the handler does not return, it panics while it holds whatever it holds
+				let cmd = match how % 4 {
+					0 => Cmd::Return(Ret::None),
+					1 => Cmd::Return(Ret::NotifErr("closing".into())),
+					2 => Cmd::Return(Ret::Notif(json!("bye"))),
+					_ => Cmd::Panic,
 				};
-				let rep = h.cmd(Cmd::Return(ret)).await.map(|t| t.reply);
+				let rep = h.cmd(cmd).await.map(|t| t.reply);
 				settle().await;
 				out.history.push(format!("{oi}: {} handler returns ({how}) -> {rep:?}", m.tag));
 				if rep != Some(Reply::Returning) {
@@ -747,6 +749,85 @@ async fn id_reuse_case(seed: u64) -> Out {
 	out
 }
 
+/// Stress (real threads), a linearizability check on one key: `threads` OS threads call the unsubscribe method for the
+/// same active subscription at the same instant (through `Methods::raw_json_request`, i.e. the very callback the server
+/// runs in one task per message). Against the sequential specification - the first unsubscribe of an active subscription
+/// answers true, every later one false - a history of concurrent calls is linearizable iff exactly one of them got true.
+fn concurrent_unsubscribe_rounds(rounds: usize, threads: usize) -> (usize, usize, Vec<(String, String)>) {
+	use futures_util::FutureExt;
+	use jsonrpsee_server::RpcModule;
+	use std::sync::{Arc, Barrier, Mutex};
+	let mut violations = Vec::new();
+	let mut m = RpcModule::new(());
+	m.register_subscription("sub", "notif", "unsub", |_, pending, _, _| async move {
+		let sink = pending.accept().await?;
+		sink.closed().await;
+		Ok(())
+	})
+	.unwrap();
+	let m = Arc::new(m);
+	let rt = tokio::runtime::Builder::new_multi_thread().worker_threads(2).enable_all().build().expect("rt");
+	let start = Arc::new(Barrier::new(threads + 1));
+	let done = Arc::new(Barrier::new(threads + 1));
+	let current: Arc<Mutex<Option<String>>> = Default::default();
+	let answers: Arc<Mutex<Vec<Option<bool>>>> = Default::default();
+	let stop = Arc::new(std::sync::atomic::AtomicBool::new(false));
+	let mut workers = Vec::new();
+	for _ in 0..threads {
+		let (m, start, done, current, answers, stop) = (m.clone(), start.clone(), done.clone(), current.clone(), answers.clone(), stop.clone());
+		workers.push(std::thread::spawn(move || {
+			loop {
+				start.wait();
+				if stop.load(Ordering::SeqCst) {
+					return;
+				}
+				let req = current.lock().unwrap().clone().unwrap_or_default();
+				// the unsubscribe callback is synchronous: the future is ready at its first poll
+				let ans = m.raw_json_request(&req, 1).now_or_never().and_then(|r| r.ok()).and_then(|(rp, _)| serde_json::from_str::<Value>(rp.get()).ok()).and_then(|v| v["result"].as_bool());
+				answers.lock().unwrap().push(ans);
+				done.wait();
+			}
+		}));
+	}
+	let mut checked = 0usize;
+	let mut histories_with_overlap = 0usize;
+	for round in 0..rounds {
+		let sub = rt.block_on(async { m.subscribe_unbounded("sub", jsonrpsee_core::EmptyServerParams::new()).await });
+		let Ok(sub) = sub else {
+			violations.push(("setup-failed/concurrent-unsubscribe".to_string(), format!("round {round}: subscribe failed")));
+			break;
+		};
+		let id = serde_json::to_string(sub.subscription_id()).unwrap_or_default();
+		*current.lock().unwrap() = Some(format!("{{\"jsonrpc\":\"2.0\",\"id\":1,\"method\":\"unsub\",\"params\":[{id}]}}"));
+		answers.lock().unwrap().clear();
+		start.wait();
+		done.wait();
+		let a = answers.lock().unwrap().clone();
+		checked += a.len();
+		let trues = a.iter().filter(|x| **x == Some(true)).count();
+		let falses = a.iter().filter(|x| **x == Some(false)).count();
+		if falses > 0 {
+			histories_with_overlap += 1;
+		}
+		if trues != 1 || trues + falses != threads {
+			violations.push((
+				"unsubscribe-result-wrong/concurrent-unsubscribes-not-linearizable".to_string(),
+				format!("round {round}: {threads} concurrent unsubscribe calls for one active subscription answered {a:?}; exactly one may answer true"),
+			));
+			if violations.len() > 20 {
+				break;
+			}
+		}
+		drop(sub);
+	}
+	stop.store(true, Ordering::SeqCst);
+	start.wait();
+	for w in workers {
+		let _ = w.join();
+	}
+	(checked, histories_with_overlap, violations)
+}
+
 /// Stress (real threads): many subscriptions on several connections end at the same instant (their handlers return
 /// concurrently on 8 workers); afterwards every id must be inactive (unsubscribe false) and every slot must be free.
 async fn mass_ending_case(seed: u64, per_conn: usize) -> (usize, Vec<(String, String)>) {
@@ -873,7 +954,7 @@ fn gen_ops(r: &mut Rng, len: usize, conns: usize) -> Vec<Op> {
 			12 | 13 => Op::CloneSink(pick_sub(r, n_subs)),
 			14 | 15 => Op::DropSink(pick_sub(r, n_subs), r.usize(3)),
 			16 | 17 => Op::IsClosed(pick_sub(r, n_subs), r.usize(3)),
-			18 => Op::Return(pick_sub(r, n_subs), r.below(3) as u8),
+			18 => Op::Return(pick_sub(r, n_subs), r.below(4) as u8),
 			19..=21 => {
 				let target = match r.below(8) {
 					0..=3 => Target::Own(pick_sub(r, n_subs)),
@@ -921,6 +1002,7 @@ fn exhaustive_specs(max_len: usize) -> Vec<Spec> {
 		Op::DropSink(0, 1),
 		Op::IsClosed(0, 0),
 		Op::Return(0, 1),
+		Op::Return(0, 3),
 		Op::Unsubscribe { conn: 0, target: Target::Own(0) },
 		Op::Unsubscribe { conn: 0, target: Target::Own(1) },
 		Op::Unsubscribe { conn: 0, target: Target::Pending(0) },
@@ -1045,8 +1127,15 @@ fn main() {
 			all
 		});
 		let checked: usize = res.iter().map(|r| r.0).sum();
-		let sigs: Vec<String> = res.iter().flat_map(|r| r.1.iter().map(|v| format!("{} ({})", v.0, v.1))).collect();
-		println!("SUBRESULT {}", json!({"mode": ctx.sub, "rounds": n, "unsubscribes_checked": checked, "violation_signatures": sigs}));
+		let mut sigs: Vec<String> = res.iter().flat_map(|r| r.1.iter().map(|v| format!("{} ({})", v.0, v.1))).collect();
+		let conc_rounds: usize = ctx.arg_value("--conc").and_then(|s| s.parse().ok()).unwrap_or(2000);
+		let (c_checked, c_overlap, c_v) = concurrent_unsubscribe_rounds(conc_rounds, 4);
+		sigs.extend(c_v.iter().map(|v| format!("{} ({})", v.0, v.1)));
+		println!(
+			"SUBRESULT {}",
+			json!({"mode": ctx.sub, "rounds": n, "unsubscribes_checked": checked, "concurrent_unsubscribe_rounds": conc_rounds, "concurrent_unsubscribe_calls": c_checked,
+				"concurrent_unsubscribe_rounds_with_a_false_answer": c_overlap, "violation_signatures": sigs})
+		);
 		return;
 	}
 	install_panic_capture(true);
@@ -1180,7 +1269,8 @@ fn main() {
 		// real threads: concurrent endings (the gated mode D runs everything on one thread)
 		let exe = std::env::current_exe().expect("exe");
 		let (n, per) = ctx.tier.pick(("3", "300"), ("40", "500"));
-		let o = std::process::Command::new(exe).args(["--sub", "stress", "--n", n, "--per", per]).env("VERIF_SEED", ctx.seed.to_string()).output();
+		let conc = ctx.tier.pick("12000", "300000");
+		let o = std::process::Command::new(exe).args(["--sub", "stress", "--n", n, "--per", per, "--conc", conc]).env("VERIF_SEED", ctx.seed.to_string()).output();
 		match o.ok().and_then(|o| String::from_utf8(o.stdout).ok()).and_then(|s| s.lines().find_map(|l| l.strip_prefix("SUBRESULT ").map(|j| j.to_string()))) {
 			Some(j) => {
 				let v: Value = serde_json::from_str(&j).unwrap_or(Value::Null);
@@ -1190,13 +1280,15 @@ fn main() {
 				}
 				ev.evals(v["rounds"].as_u64().unwrap_or(0));
 				ev.count("stress_unsubscribes_checked", v["unsubscribes_checked"].as_u64().unwrap_or(0));
+				ev.count("stress_concurrent_unsubscribe_calls", v["concurrent_unsubscribe_calls"].as_u64().unwrap_or(0));
+				ev.count("stress_concurrent_unsubscribe_histories", v["concurrent_unsubscribe_rounds"].as_u64().unwrap_or(0));
 				ev.set("stress", v);
 			}
 			None => inconclusive = Some("native stress sub-run did not report".to_string()),
 		}
 	}
 	if ctx.tier == Tier::Thorough && !replay {
-		let (res, reports) = jrv::sanit::run_tsan("c06", &["--n".into(), "6".into(), "--per".into(), "300".into()], Duration::from_secs(1200));
+		let (res, reports) = jrv::sanit::run_tsan("c06", &["--n".into(), "6".into(), "--per".into(), "300".into(), "--conc".into(), "3000".into()], Duration::from_secs(1200));
 		for (frame, excerpt) in &reports {
 			violations.push(Violation::new(format!("tsan:{frame}"), "ThreadSanitizer reported a data race", json!({"excerpt": excerpt})));
 		}
